@@ -258,6 +258,13 @@ def drive(
 
         etasks = [asyncio.ensure_future(early(t, tmpl, idx)) for t, tmpl, ph, idx in entries if ph == -3 and t > 0]
         handled = {idx for t, tmpl, ph, idx in entries if ph == -3 and t > 0}
+        #  -4           sent from a loop timer armed before the call started: at t it fires before every timer the
+        #               call armed for the same instant (a poll window's or the deadline's), and hands the item to
+        #               the receiver that is still blocked
+        for t, tmpl, ph, idx in entries:
+            if ph == -4 and t > 0:
+                loop.call_at(t, deliver, tmpl, idx)
+                handled.add(idx)
         if etasks:
             await asyncio.sleep(0)  # let them arm their timers
 
